@@ -80,13 +80,15 @@ Qed.
 Lemma rt_g711 E mt pt mu r ch : wf_fmt E false (FG711 pt mu r ch) -> rt_ok E mt (FG711 pt mu r ch) KG711.
 Proof.
   cbn [wf_fmt]. intros H rtpmap fm [= <-] [= <-]. unfold own_kind, own_ctx. cbn [fmt_pt].
-  destruct H as [(-> & -> & -> & ->)|[(-> & -> & -> & ->)|(Hd & Hr & Hc)]].
+  destruct H as [(-> & -> & -> & ->)|[(-> & -> & -> & ->)|(Hpt & Hn0 & Hn8 & Hd & Hr & Hc)]].
   - split; [|split]; [vm_compute; reflexivity|vm_compute; reflexivity|nodup_tac].
   - split; [|split]; [vm_compute; reflexivity|vm_compute; reflexivity|nodup_tac].
-  - unfold dynp in Hd. assert (Hpt := dyn_ge pt Hd).
-    destruct (N.eqb_spec pt 0); [lia|]. destruct (N.eqb_spec pt 8); [lia|].
+  - destruct (N.eqb_spec pt 0); [lia|]. destruct (N.eqb_spec pt 8); [lia|].
     split; [|split].
-    + destruct (N.eqb_spec ch 1) as [->|Hch1]; destruct mu; cbn; unfold select, is; cbn; rewrite ?Hd; reflexivity.
+    + destruct mu.
+      * destruct Hd as [Hd|Hd]; [discriminate|]. unfold dynp in Hd.
+        destruct (N.eqb_spec ch 1) as [->|Hch1]; cbn; unfold select, is; cbn; rewrite ?Hd; reflexivity.
+      * destruct (N.eqb_spec ch 1) as [->|Hch1]; cbn; unfold select, is; cbn; reflexivity.
     + destruct (N.eqb_spec ch 1) as [->|Hch1]; destruct mu; cbn;
         (destruct (N.eqb_spec pt 0); [lia|]); (destruct (N.eqb_spec pt 8); [lia|]);
         cbn; rewrite ?app_nil_r; rewrite ?rate_ch_2, ?rate_ch_1 by assumption; cbn; unfold is; reflexivity.
@@ -96,12 +98,11 @@ Qed.
 Lemma rt_lpcm E mt pt d r ch : wf_fmt E false (FLPCM pt d r ch) -> rt_ok E mt (FLPCM pt d r ch) KLPCM.
 Proof.
   cbn [wf_fmt]. intros H rtpmap fm [= <-] [= <-]. unfold own_kind, own_ctx. cbn [fmt_pt].
-  destruct H as [(-> & -> & -> & ->)|[(-> & -> & -> & ->)|(Hd & Hdep & Hr & Hc)]].
+  destruct H as [(-> & -> & -> & ->)|[(-> & -> & -> & ->)|(Hpt & Hn10 & Hn11 & Hdep & Hr & Hc)]].
   - split; [|split]; [vm_compute; reflexivity|vm_compute; reflexivity|nodup_tac].
   - split; [|split]; [vm_compute; reflexivity|vm_compute; reflexivity|nodup_tac].
-  - unfold dynp in Hd. assert (Hpt := dyn_ge pt Hd).
-    destruct Hdep as [-> | [-> | ->]];
-      (split; [|split]; [cbn; unfold select, is; cbn; rewrite ?Hd; reflexivity| |nodup_tac]);
+  - destruct Hdep as [-> | [-> | [-> Hd]]];
+      (split; [|split]; [cbn; unfold select, is; cbn; try (unfold dynp in Hd; rewrite Hd); reflexivity| |nodup_tac]);
       cbn; destruct (N.eqb_spec pt 10); try lia; destruct (N.eqb_spec pt 11); try lia;
       cbn; rewrite rate_ch_2 by assumption; cbn; unfold is; reflexivity.
 Qed.
